@@ -10,6 +10,7 @@
 -/
 import BitstringModel.Model.C14
 import BitstringModel.Proofs.C14
+import BitstringModel.Proofs.C14Items
 
 namespace BM.C14
 open BM
@@ -22,20 +23,21 @@ variable {V : Type}
     followed by any trailing bits" — bit level, for every buffer and every width. -/
 theorem data_layout (w : Nat) (hw : 0 < w) (d : Bits) :
     d = (chunks w d).flatten ++ trailing w d := by
-  sorry
+  exact layout w d
 
 theorem chunks_length (w : Nat) (hw : 0 < w) (d : Bits) : ∀ b ∈ chunks w d, b.length = w := by
-  sorry
+  exact chunks_mem_length w hw d
 
 theorem trailing_length_lt (w : Nat) (hw : 0 < w) (d : Bits) : (trailing w d).length < w := by
-  sorry
+  exact trailing_lt w hw d
 
 /-- The decomposition is unique: whatever list of `w`-bit blocks plus fewer than `w` bits makes up the data is
     the item view. -/
 theorem layout_unique (w : Nat) (hw : 0 < w) (bs : List Bits) (t d : Bits)
     (hbs : ∀ b ∈ bs, b.length = w) (ht : t.length < w) (hd : d = bs.flatten ++ t) :
     chunks w d = bs ∧ trailing w d = t := by
-  sorry
+  subst hd
+  exact ⟨chunks_of_blocks w hw bs t hbs ht, trailing_of_blocks w hw bs t hbs ht⟩
 
 /-- For a canonical codec the layout reads literally: `data = (items a).flatMap enc ++ trailing a`. -/
 theorem data_layout_enc (c : Codec V) (hw : 0 < c.w) (hcanon : c.Canonical) (d : Bits) :
@@ -57,10 +59,27 @@ theorem init_list_error_iff (c : Codec V) (hu : c.mult = 1) (hwf : c.WF) (vals :
 
 /-- The code's `trailing_bits` (`len % bitlength`, `data[-n:]`) is the SPEC trailing. -/
 theorem trailingBits_eq (c : Codec V) (hw : 0 < c.w) (d : Bits) : trailingBits c d = trailing c.w d := by
-  sorry
+  unfold trailingBits trailing
+  have hdm := Nat.div_add_mod d.length c.w
+  have hml := Nat.mod_lt d.length hw
+  simp only
+  split
+  · rename_i h0
+    have : c.w * (d.length / c.w) = d.length := by omega
+    rw [this]; simp
+  · rename_i h0
+    unfold bslice Py.sliceIndices
+    have h1 : (-((d.length % c.w : Nat) : Int) < 0) := by omega
+    have h2 : ¬ ((1 : Int) < 0) := by omega
+    simp only [h1, h2, if_true, if_false]
+    have h3 : (max (-((d.length % c.w : Nat) : Int) + (d.length : Int)) 0).toNat = c.w * (d.length / c.w) := by omega
+    rw [h3]
+    apply List.take_of_length_le
+    simp only [List.length_drop]
+    omega
 
 theorem len_eq (c : Codec V) (hu : c.mult = 1) (d : Bits) : len c d = (items c d).length := by
-  sorry
+  simp [len, items, chunks_len, w_eq_L c hu]
 
 /-- `tolist()`: the `range(0, len(data) - L + 1, L)` loop reads exactly the items. -/
 theorem tolist_eq_items (c : Codec V) (hu : c.mult = 1) (hL : 0 < c.L) (d : Bits) :
@@ -77,7 +96,31 @@ theorem iter_eq_items (c : Codec V) (hu : c.mult = 1) (hL : 0 < c.L) (d : Bits) 
 /-- Indexing = Python list indexing (negative from the end, IndexError outside). -/
 theorem getItem_refines (c : Codec V) (hu : c.mult = 1) (hL : 0 < c.L) (d : Bits) (i : Int) :
     getItem c d i = Py.getIndex (items c d) i := by
-  sorry
+  obtain ⟨bs, t, hbs, ht, rfl, hch, htr, hlen, hit⟩ := blocks_view c hu hL d
+  unfold getItem
+  rw [hit, hlen]
+  cases hn : normIndex bs.length i with
+  | error e =>
+    obtain ⟨rfl, hr⟩ := normIndex_err _ _ _ hn
+    simp only
+    unfold Py.getIndex
+    simp only [List.length_map]
+    generalize (if i < 0 then i + (bs.length : Int) else i) = j at hr ⊢
+    by_cases hj : j < 0
+    · simp [hj]
+    · have : (List.map c.dec bs)[j.toNat]? = none := by
+        apply List.getElem?_eq_none; simp; omega
+      simp [hj, this]
+  | ok k =>
+    obtain ⟨hk, hkj⟩ := normIndex_ok _ _ _ hn
+    simp only
+    rw [readAt_block c hu bs t hbs k hk]
+    unfold Py.getIndex
+    simp only [List.length_map]
+    generalize (if i < 0 then i + (bs.length : Int) else i) = j at hkj ⊢
+    have hj : ¬ j < 0 := by omega
+    have hjk : j.toNat = k := by omega
+    simp [hj, hjk, hk]
 
 /-- Item assignment = list item assignment, for a value that fits. -/
 theorem setItem_refines (c : Codec V) (hu : c.mult = 1) (hL : 0 < c.L) (hwf : c.WF) (d : Bits) (i : Int) (v : V)
@@ -145,6 +188,25 @@ theorem extendArr_rejects (c c2 : Codec V) (hu : c.mult = 1) (hL : 0 < c.L) (d d
     (h : trailing c.w d ≠ [] ∨ c.name ≠ c2.name ∨ c.L ≠ c2.L) :
     (∃ e, (extendArr c d c2 d2).res = .error e) ∧ (extendArr c d c2 d2).data = d := by
   sorry
+
+/-- `extend(array.array)`: when the dtype of the typecode matches ours and its standard size is the array's native
+    item size (outside the region `extend_array_itemsize`), the array's items — `raw` read at our width — are appended. -/
+theorem extendBuf_refines_partial (c : Codec V) (hu : c.mult = 1) (hL : 0 < c.L) (d raw : Bits) (name2 : String) (L2 native : Nat)
+    (hreg : extend_array_itemsize (some (name2, L2)) native = false)
+    (hsame : c.name = name2 ∧ c.L = L2) (ht : trailing c.w d = []) :
+    native = c.w ∧
+    (extendBuf c d (some (name2, L2)) native raw).view c = .ok ((), items c d ++ items c raw) := by
+  sorry
+
+/-- Known finding `extend-array-itemsize`: `array.array('l', [1])` holds one 16-bit item on a platform where the standard
+    size of `'l'` is 8 bits (scaled down from 64 / 32): an `intle8` Array accepts it and reads two items `[1, 0]`. -/
+theorem extend_array_itemsize_witness :
+    let c := mkCodec .ile "intle" 8 1 .int true
+    let raw := [false, false, false, false, false, false, false, true, false, false, false, false, false, false, false, false]
+    extend_array_itemsize (some ("intle", 8)) 16 = true ∧
+    items c (extendBuf c [] (some ("intle", 8)) 16 raw).data = [.int 1, .int 0] ∧
+    (chunks 16 raw).length = 1 := by
+  decide
 
 /-! ### insert, pop -/
 
